@@ -16,6 +16,15 @@ CHECKS = {
     ),
 }
 
+L1 = "Bounded model checking of the real Solver.solve loop (termination tests, penalty strategies, callbacks, path, result assembly, Transformation, evaluator) over a symbolic user problem, clock, limits and tolerances, with Solver._compute_step replaced by an arbitrary step oracle (over-approximates every controller/Newton/step-solver/linear-solver choice); all paths for <= K trial steps (quick K=2, thorough K=3..4), n=1, m<=1; "
+L1NOTE = "Exact real arithmetic, symbolic*symbolic products uninterpreted (sign facts), 2-norms abstracted by valid linear facts; bounds K, n=1, m<=1; the oracle contract (in-box iterate, lambda>0) is the StepController.compute_step contract; z3 + symx executor + numpy/scipy model trusted, model cross-checked by concrete replay of every counterexample."
+CHECKS.update(
+    C02=dict(text=L1 + "status justification (LocallyInfeasible / Unbounded / IterationLimit / TimeLimit) re-evaluated per path by an oracle written from the statement.", note=L1NOTE + " IntegrationSolver is outside (anchors name solver.py).", ref="DESIGN.md §6 C02"),
+    C12=dict(text=L1 + "counter / callback / path / model-time / distance-factor obligations proved per path against the oracle's own log, all six penalty policies incl. filter vetoes.", note=L1NOTE, ref="DESIGN.md §6 C12"),
+    C15=dict(text=L1 + "lambda hand-over between trials, abort only at lamb_max, iterate kept unless accepted.", note=L1NOTE + " The controllers' own accept/reject rules are the L2 part (added when built).", ref="DESIGN.md §6 C15"),
+    C16=dict(text=L1 + "rho argument of successive trials positive, monotone, constant under the constant policy, DualNorm bounds; solver.rho read inside callbacks.", note=L1NOTE, ref="DESIGN.md §6 C16"),
+)
+
 NOT_APPLICABLE = {
     "C03": "liveness/convergence of hundreds of floating-point Newton iterations with data-dependent trip count: no bounded symbolic encoding can decide it (DESIGN.md §7)",
 }
